@@ -789,7 +789,7 @@ func init() {
 		Level: "exploration",
 		Rule: "Real network.Driver against a strict CLI device whose modes form a generated privilege tree. Exhaustive part: every rooted labelled tree with <=4 levels " +
 			"(1+2+9+64; thorough: also the 625 trees with 5 levels), each in the variants plain / authenticated edges / overlapping patterns separated by not-contains " +
-			"(thorough: also both; for 5 levels the combined variant on every other tree), and per tree an Euler tour of the complete digraph so that every ordered (current,target) pair incl. current=target is acquired through " +
+			"(thorough: also both), and per tree an Euler tour of the complete digraph so that every ordered (current,target) pair incl. current=target is acquired through " +
 			"the driver itself (AcquirePriv, SendCommand(s), SendConfig(s) with/without WithPrivilegeLevel, SendInteractive), plus unknown-target probes. Sampled part: random " +
 			"trees with 6-8 levels (chain/star/caterpillar/Pruefer) with the same tour, and random operation sequences (<=12 ops) on trees with 2-6 levels; names, prompts, " +
 			"transition commands, which edges ask for the secret, start mode, default level, newline, return char, read size, read delay, search depth and read segmentation are PRNG-drawn. " +
@@ -826,11 +826,8 @@ func init() {
 			return 4
 		},
 		CaseTimeout: 300 * time.Second,
-		Procs: func(tier string, shard int) int {
-			if tier == "thorough" {
-				return 4 // 8 cases in flight per worker, a fifth of them busy-polling (read delay 0)
-			}
-			return []int{2, 4}[shard%2]
-		},
+		// up to 8 cases in flight per worker, a fifth of them busy-polling (read delay 0): with fewer Ps the
+		// pollers starve the other sessions
+		Procs: func(string, int) int { return 4 },
 	})
 }
